@@ -529,7 +529,15 @@ func (o c16Obs) typedGet(i int32) c16Ans {
 // Base.Get: the generic accessor (on a typed array it has no encoder)
 func (o c16Obs) genericGet(i int32) c16Ans {
 	return c16Catch(func() c16Ans {
-		v, ok := o.bs().Get(i)
+		// through the value the user holds: on a generic array the method set of *array.Array
+		// (today Get is promoted from Base; a Get defined on Array itself must be exercised too)
+		var v interface{}
+		var ok bool
+		if o.ty == nil {
+			v, ok = o.ge.Get(i)
+		} else {
+			v, ok = o.bs().Get(i)
+		}
 		if v == nil {
 			return c16Ans{found: ok}
 		}
@@ -540,7 +548,13 @@ func (o c16Obs) genericGet(i int32) c16Ans {
 
 func (o c16Obs) rawGet(i int32, width int) c16Ans {
 	return c16Catch(func() c16Ans {
-		b, ok := o.bs().GetBytes(i, width)
+		var b []byte
+		var ok bool
+		if o.ty == nil {
+			b, ok = o.ge.GetBytes(i, width)
+		} else {
+			b, ok = o.bs().GetBytes(i, width)
+		}
 		return c16Ans{found: ok, raw: append([]byte{}, b...)}
 	})
 }
